@@ -10,7 +10,7 @@
 //! with a diagnostic on undefined behaviour / data races / deadlock.
 
 use oxidd::util::AllocResult;
-use oxidd::{BooleanFunction, BooleanFunctionQuant, Manager, ManagerRef};
+use oxidd::{BooleanFunction, BooleanFunctionQuant, Function, Manager, ManagerRef};
 use std::sync::Arc;
 
 const NV: u32 = 4;
@@ -196,6 +196,143 @@ macro_rules! run {
     }};
 }
 
+
+// ---- MTBDD scenario: terminals are created, found and collected concurrently ----------
+
+type MF = oxidd::mtbdd::MTBDDFunction<oxidd::mtbdd::terminal::I64>;
+type Tab = [i64; 8];
+const MV: u32 = 3;
+
+fn mt_tab(f: &MF) -> Tab {
+    use oxidd::mtbdd::terminal::I64;
+    use oxidd::PseudoBooleanFunction;
+    let mut t = [0i64; 8];
+    for a in 0..8u32 {
+        t[a as usize] = match f.eval((0..MV).map(|v| (v, a >> v & 1 == 1))) {
+            I64::Num(x) => x,
+            other => fail(format!("non-finite terminal {:?} in a finite computation", other)),
+        };
+    }
+    t
+}
+
+fn mt_script(tid: u64, seed: u64, pool: Vec<(MF, Tab)>, steps: usize) -> Vec<(MF, Tab)> {
+    use oxidd::mtbdd::terminal::I64;
+    use oxidd::PseudoBooleanFunction;
+    let mut rng = Rng(seed ^ tid.wrapping_mul(0xA24BAED4963EE407));
+    let mut pool = pool;
+    for step in 0..steps {
+        let i = rng.below(pool.len() as u64) as usize;
+        let j = rng.below(pool.len() as u64) as usize;
+        let zip = |f: fn(i64, i64) -> i64, a: &Tab, b: &Tab| {
+            let mut t = [0i64; 8];
+            for k in 0..8 {
+                t[k] = f(a[k], b[k]);
+            }
+            t
+        };
+        let (res, exp, what): (AllocResult<MF>, Tab, &str) = match rng.below(9) {
+            0 | 1 => (pool[i].0.add(&pool[j].0), zip(|x, y| x + y, &pool[i].1, &pool[j].1), "add"),
+            2 => (pool[i].0.sub(&pool[j].0), zip(|x, y| x - y, &pool[i].1, &pool[j].1), "sub"),
+            3 => (PseudoBooleanFunction::min(&pool[i].0, &pool[j].0), zip(|x, y| x.min(y), &pool[i].1, &pool[j].1), "min"),
+            4 => (PseudoBooleanFunction::max(&pool[i].0, &pool[j].0), zip(|x, y| x.max(y), &pool[i].1, &pool[j].1), "max"),
+            5 | 6 => {
+                // the same few constants on every thread: lookups of one terminal race with its collection
+                let c = rng.below(4) as i64 + 2;
+                (pool[i].0.with_manager_shared(|m, _| MF::constant(m, I64::Num(c))), [c; 8], "constant")
+            }
+            _ => {
+                if pool.len() > 3 {
+                    let (f, t) = pool.swap_remove(i);
+                    if mt_tab(&f) != t {
+                        fail(format!("thread {} step {}: a handle changed its meaning", tid, step));
+                    }
+                    drop(f);
+                }
+                pool[0].0.with_manager_shared(|m, _| m.gc());
+                continue;
+            }
+        };
+        match res {
+            Ok(f) => {
+                let got = mt_tab(&f);
+                if got != exp {
+                    fail(format!("thread {} step {}: {} gives {:?}, expected {:?}", tid, step, what, got, exp));
+                }
+                for (g, tg) in &pool {
+                    if (*tg == exp) != (*g == f) {
+                        fail(format!("thread {} step {}: handle equality disagrees with function equality", tid, step));
+                    }
+                }
+                pool.push((f, exp));
+            }
+            Err(_) => fail(format!("thread {} step {}: out of memory with ample capacity", tid, step)),
+        }
+    }
+    pool
+}
+
+fn run_mtbdd(seed: u64) {
+    use oxidd::mtbdd::terminal::I64;
+    use oxidd::PseudoBooleanFunction;
+    let mref = oxidd::mtbdd::new_manager::<I64>(96, 48, 16, 2);
+    let vars: Vec<(MF, Tab)> = mref.with_manager_exclusive(|m| {
+        m.add_vars(MV);
+        (0..MV)
+            .map(|v| {
+                let mut t = [0i64; 8];
+                for a in 0..8u32 {
+                    t[a as usize] = (a >> v & 1) as i64;
+                }
+                (MF::var(m, v).unwrap(), t)
+            })
+            .collect()
+    });
+    let base = Arc::new(vars);
+    let mut handles = vec![];
+    for tid in 0..2u64 {
+        let b = base.clone();
+        handles.push(std::thread::spawn(move || {
+            let pool: Vec<(MF, Tab)> = b.iter().map(|(f, t)| (f.clone(), *t)).collect();
+            mt_script(tid, seed, pool, 9)
+        }));
+    }
+    let m2 = mref.clone();
+    let gc = std::thread::spawn(move || {
+        for _ in 0..8 {
+            m2.with_manager_shared(|m| m.gc());
+            for _ in 0..4 {
+                std::thread::yield_now();
+            }
+        }
+    });
+    let mut all: Vec<(MF, Tab)> = vec![];
+    for h in handles {
+        all.extend(h.join().unwrap());
+    }
+    gc.join().unwrap();
+    for (i, (f, tf)) in all.iter().enumerate() {
+        for (g, tg) in &all[i..] {
+            if (tf == tg) != (f == g) {
+                fail("results of different threads: handle equality disagrees with function equality".into());
+            }
+        }
+        if mt_tab(f) != *tf {
+            fail("a result changed its meaning".into());
+        }
+    }
+    drop(all);
+    drop(base);
+    let (left, terms) = mref.with_manager_shared(|m| {
+        m.gc();
+        (m.num_inner_nodes(), m.approx_num_inner_nodes())
+    });
+    let _ = terms;
+    if left != 0 {
+        fail(format!("{} inner nodes left after dropping every handle and gc", left));
+    }
+}
+
 fn main() {
     let args: Vec<String> = std::env::args().collect();
     let kind = args.get(1).map(|s| s.as_str()).unwrap_or("bdd");
@@ -206,6 +343,7 @@ fn main() {
         "bdd" => run!(oxidd::bdd::BDDFunction, oxidd::bdd::new_manager(96, 16, 2), seed, 0, Some(|f: &oxidd::bdd::BDDFunction, v: &oxidd::bdd::BDDFunction| f.exists(v))),
         "bcdd" => run!(oxidd::bcdd::BCDDFunction, oxidd::bcdd::new_manager(96, 16, 2), seed, 0, Some(|f: &oxidd::bcdd::BCDDFunction, v: &oxidd::bcdd::BCDDFunction| f.exists(v))),
         "zbdd" => run!(oxidd::zbdd::ZBDDFunction, oxidd::zbdd::new_manager(96, 16, 2), seed, NV as usize, None),
+        "mtbdd" => run_mtbdd(seed),
         _ => {
             eprintln!("unknown kind {}", kind);
             std::process::exit(2)
